@@ -220,7 +220,23 @@ def rddOracle (a : List String) (obs : String) : String :=
             let (replies', masks', bad) := inters.foldl (fun (acc : Bytes × List Mask × Bool) (cf : Nat × Bytes) =>
               let (rb, ms, stop) := replyFor client cf.1 cf.2 acc.2.1
               (acc.1 ++ rb, ms, acc.2.2 || stop.isSome)) (replies, masks, false)
-            if bad then "skip"   -- a close frame inside a fragmented message: handled by the model check only
+            -- a close frame inside a fragmented message ends the read there: every control frame up to and
+            -- including it is answered, and the close is what the caller is told (valid closes; invalid ones
+            -- are left to the model check)
+            let upTo := inters.foldl (fun (acc : Bytes × List Mask × Option String) (cf : Nat × Bytes) =>
+              if acc.2.2.isSome then acc else
+              let (rb, ms, stop) := replyFor client cf.1 cf.2 acc.2.1
+              (acc.1 ++ rb, ms, stop)) (replies, masks, none)
+            if bad then
+              (match upTo.2.2 with
+               | some c =>
+                 if c.startsWith "closed:" then
+                   (if badHere then "skip"
+                    else if wrBytes != upTo.1 then "bad:close-reply-differs"
+                    else if err != c then s!"bad:close-not-reported-as-{c.take 24}"
+                    else "ok")
+                 else "skip"
+               | none => "skip")
             else if badHere then
               if !(isProto err || err == "msb") then "bad:expected-protocol-error-at-first-offending-frame"
               else if wrBytes != replies' then "bad:control-replies-differ"
